@@ -794,14 +794,14 @@ fn judge(case: &Case, tgt: Tgt, pipe: Option<&XPipe>, out: &rssl::CompiledPipeli
                     if !desc_of_input_kind(&r.kind).contains(&desc.as_str()) {
                         fails.push(Fail { class: "type-mismatch", detail: format!("`{}` declared as {} but reported as {}", b.name, r.kind, desc) });
                     }
-                    let want = match r.arr {
+                    let want = match r.eff_arr() {
                         ArrLen::No => Some(Some(1)),
                         ArrLen::Sized(n) => Some(Some(n)),
                         ArrLen::Unsized => Some(None),
                         ArrLen::Nested(..) => None,
                     };
                     if want.is_some_and(|w| b.descriptor_count != w) {
-                        fails.push(Fail { class: "count-mismatch", detail: format!("`{}` declared with {:?} but descriptor_count {:?}", b.name, r.arr, b.descriptor_count) });
+                        fails.push(Fail { class: "count-mismatch", detail: format!("`{}` declared with {:?} but descriptor_count {:?}", b.name, r.eff_arr(), b.descriptor_count) });
                     }
                 }
             }
@@ -863,7 +863,7 @@ fn judge(case: &Case, tgt: Tgt, pipe: Option<&XPipe>, out: &rssl::CompiledPipeli
             if shared_names.contains(r.name.as_str()) || case.res.iter().any(|o| o.name.starts_with(&prefix)) {
                 continue; // not attributable by name
             }
-            let bindable = !r.ss && !r.stat && r.kind != "struct" && matches!(r.arr, ArrLen::No | ArrLen::Sized(_));
+            let bindable = !r.ss && !r.stat && r.kind != "struct" && matches!(r.eff_arr(), ArrLen::No | ArrLen::Sized(_));
             let n = out
                 .metadata
                 .bind_groups
@@ -1025,10 +1025,26 @@ fn run_case(case: &Case, tgt: Tgt, mode: &Mode, out: &mut Out, hist: &mut Hist) 
     if !case.inits.is_empty() { hist.add("variant=global-initialisers"); }
     for r in &case.res {
         hist.add(&format!("kind={}", r.kind));
-        match r.arr {
+        match r.eff_arr() {
             ArrLen::Unsized => hist.add("variant=unsized-array"),
             ArrLen::Nested(..) => hist.add("variant=nested-array"),
             _ => {}
+        }
+        if !r.spell.is_plain() {
+            hist.add("variant=type-spelling");
+            if r.spell.ns { hist.add("spelling=typedef-in-namespace"); }
+            if r.spell.param_td { hist.add("spelling=template-argument-typedef"); }
+            if r.spell.const_kw { hist.add("spelling=const-keyword"); }
+            if r.spell.extern_kw { hist.add("spelling=extern-keyword"); }
+            if r.spell.steps.len() >= 2 { hist.add("spelling=typedef-of-typedef"); }
+            if r.spell.steps.iter().any(|s| s.is_const) { hist.add("spelling=const-typedef"); }
+            match (r.spell.typedef_dims().len(), r.arr) {
+                (0, ArrLen::No) => hist.add("spelling=typedef-of-object"),
+                (0, _) => hist.add("spelling=array-of-typedef"),
+                (1, ArrLen::No) => hist.add("spelling=typedef-of-array"),
+                (_, ArrLen::No) => hist.add("spelling=typedef-of-array-of-typedef-array"),
+                _ => hist.add("spelling=array-of-typedef-array"),
+            }
         }
         if r.stat { hist.add("variant=static-object"); }
         if r.bl { hist.add("variant=bindless"); }
@@ -1224,9 +1240,47 @@ fn mutate(case: &mut Case, rng: &mut Rng, hist: &mut Hist) {
             hist.add("variant=non-resource-object-global");
         }
     }
+    // how the type is spelled: typedef of the object type, of an array of it, of a typedef, const on the typedef or on
+    // the global, typedefs inside a namespace, template argument through a typedef, `extern` written out
+    for r in case.res.iter_mut() {
+        if r.kind == "cbuffer" || !rng.chance(1, 3) {
+            continue;
+        }
+        let mut sp = Spelling::default();
+        let can_dim = !r.ss && r.kind != "struct" && r.kind != "RayDesc";
+        // a second array dimension only where the generator makes 2-D arrays anyway (recorded finding; Metal refuses
+        // the pipeline when an entry point reaches it)
+        let mut dims_left = if !can_dim {
+            0
+        } else if r.arr == ArrLen::No {
+            if r.kind.starts_with("Texture2D") && !r.bl && !r.stat && rng.chance(1, 8) { 2 } else { 1 }
+        } else if r.arr != ArrLen::Unsized && !matches!(r.arr, ArrLen::Nested(..)) && r.kind.starts_with("Texture2D") && !r.bl && !r.stat && rng.chance(1, 8) {
+            1
+        } else {
+            0
+        };
+        for _ in 0..rng.below(4) {
+            let is_const = rng.chance(1, 3);
+            let dim = if dims_left > 0 && rng.chance(1, 2) {
+                dims_left -= 1;
+                Some(1 + rng.below(3) as u32)
+            } else {
+                None
+            };
+            sp.steps.push(TdStep { is_const, dim });
+        }
+        sp.param_td = type_of_kind(&r.kind).is_some_and(|t| t.ends_with('>')) && rng.chance(1, 4);
+        sp.ns = sp.has_typedef() && rng.chance(1, 4);
+        sp.const_kw = rng.chance(1, 5);
+        sp.extern_kw = !r.stat && rng.chance(1, 6);
+        // a bindless table needs an array somewhere: keep the flag only when one is left
+        if !sp.is_plain() {
+            r.spell = sp;
+        }
+    }
     // how the bind group is written, explicit language-level indices, namespaces, sampler property sets
     for r in case.res.iter_mut() {
-        let annotatable = r.kind != "struct" && r.kind != "RayDesc" && !matches!(r.arr, ArrLen::Nested(..));
+        let annotatable = r.kind != "struct" && r.kind != "RayDesc" && !matches!(r.arr, ArrLen::Nested(..)) && r.spell.typedef_dims().is_empty();
         if r.group.is_some() && rng.chance(1, 2) {
             r.gspell = *rng.pick(&[GSpell::Reg, GSpell::Vk, GSpell::Over]);
             // vk::binding carries an index, which a static sampler must not have
